@@ -94,6 +94,9 @@ type Interp struct {
 	MergeIfs bool
 	// TrackBits: integer and boolean values also carry exact bit vectors (see bits.go).
 	TrackBits bool
+	// UnrollCount: for a counted loop `for i := 0; i < bound; i++` returns the trip counts to explore by exact
+	// unrolling (nil: the loop is summarised / cut as usual).
+	UnrollCount func(f *ssa.Function, bound ssa.Value) []int
 	// InlineCalls: package functions are interpreted in the caller's state instead of through summaries.
 	InlineCalls bool
 	// Oracle supplies the content of iterator fetches (layout composition); LinOfBits reads a bit vector as a
@@ -262,6 +265,10 @@ type State struct {
 	Events         []Event
 	pfx            string                // call-frame prefix of names (InlineCalls)
 	aborted        bool                  // the path is abandoned (an oracle could not serve it)
+	iterN          int                   // exact back edges taken on this path
+	iterTag        string                // suffix of names created after them
+	exact          map[*ssa.BasicBlock]int // loop headers executed exactly (remaining back-edge budget); copy-on-write
+	unrollN        []unrollFix             // trip counts fixed for unrolled loops (asserted when the bound is evaluated)
 	Defs           map[string]bitdom.Vec // TrackBits: opaque symbol -> its bits (copy-on-write)
 	defsOwned      bool
 	noZeroTripFork bool
@@ -857,9 +864,9 @@ func (st *State) Assume(c *Cond, tv bool) {
 	switch c.Op {
 	case CGE:
 		if tv {
-			st.Facts = append(st.Facts, lin.Fact{F: c.F})
+			st.Facts = append(st.Facts, lin.Fact{F: lin.Tighten(c.F)})
 		} else {
-			st.Facts = append(st.Facts, lin.Fact{F: c.F.Scale(-1).AddC(-1)})
+			st.Facts = append(st.Facts, lin.Fact{F: lin.Tighten(c.F.Scale(-1).AddC(-1))})
 		}
 	case CEQ:
 		if tv {
@@ -874,9 +881,9 @@ func (st *State) Assume(c *Cond, tv bool) {
 			}
 			// F != 0: if a bound already excludes one side, strengthen the other
 			if st.Prove(c.F) {
-				st.Facts = append(st.Facts, lin.Fact{F: c.F.AddC(-1)})
+				st.Facts = append(st.Facts, lin.Fact{F: lin.Tighten(c.F.AddC(-1))})
 			} else if st.Prove(c.F.Scale(-1)) {
-				st.Facts = append(st.Facts, lin.Fact{F: c.F.Scale(-1).AddC(-1)})
+				st.Facts = append(st.Facts, lin.Fact{F: lin.Tighten(c.F.Scale(-1).AddC(-1))})
 			} else {
 				st.NE = append(st.NE, c.F)
 			}
@@ -1004,6 +1011,19 @@ func (ip *Interp) explore(f *ssa.Function, st *State, sum *Summary, onReturn fun
 			}
 			run(st, b.Succs[col.cl.bodyS], b)
 			return
+		}
+		for _, fx := range st.unrollN {
+			if fx.h == b {
+				if bv := st.eval(fx.bound); bv.K == KInt && !bv.F.IsConst() {
+					d := bv.F.AddC(-fx.n)
+					if !(st.Prove(d) && st.Prove(d.Scale(-1))) {
+						if st.Prove(d.AddC(-1)) || st.Prove(d.Scale(-1).AddC(-1)) {
+							return // this trip count contradicts the path
+						}
+						st.Facts = append(st.Facts, lin.Fact{F: d}, lin.Fact{F: d.Scale(-1)})
+					}
+				}
+			}
 		}
 		c := st.eval(x.Cond)
 		var cond *Cond
@@ -1151,7 +1171,53 @@ func (ip *Interp) explore(f *ssa.Function, st *State, sum *Summary, onReturn fun
 		}
 		// loop entry / back edge handling
 		exactEntry := false
-		if li.headers[b] && from != nil {
+		if li.headers[b] && from != nil && !li.backEdges[[2]*ssa.BasicBlock{from, b}] && st.exact[b] > 0 {
+			// the loop is entered again on this path (its function is called a second time): fresh budget
+			budget := 12
+			for _, fx := range st.unrollN {
+				if fx.h == b {
+					budget = int(fx.n) + 2
+				}
+			}
+			st.setExact(b, budget)
+		}
+		if li.headers[b] && from != nil && st.exact[b] == 0 {
+			// exact unrolling: under an oracle every loop, otherwise the counted loops the client asked for
+			isBack := li.backEdges[[2]*ssa.BasicBlock{from, b}]
+			if !isBack && st.sum[b] == nil {
+				if ip.Oracle != nil {
+					st.setExact(b, 12)
+				} else if ip.UnrollCount != nil && !st.phaseB[b] {
+					if cl := findCountedLoop(b, li.body[b]); cl != nil && !cl.dynStart && cl.start == 0 {
+						if ns := ip.UnrollCount(f, cl.bound); len(ns) > 0 {
+							for _, n := range ns {
+								fs := st.clone()
+								fs.setExact(b, n+2)
+								fs.unrollN = append(append([]unrollFix{}, st.unrollN...), unrollFix{h: b, bound: cl.bound, n: int64(n)})
+								run(fs, b, from)
+							}
+							return
+						}
+					}
+				}
+			}
+		}
+		if li.headers[b] && from != nil && st.exact[b] > 0 {
+			if li.backEdges[[2]*ssa.BasicBlock{from, b}] {
+				st.setExact(b, st.exact[b]-1)
+				// values computed in different iterations are different values: their names differ
+				st.iterN++
+				st.iterTag = fmt.Sprintf("~%d", st.iterN)
+				if st.exact[b] == 0 {
+					if os.Getenv("ASTVERIF_UNROLL_DEBUG") != "" {
+						fmt.Fprintf(os.Stderr, "UNROLL %s loop %s fixes=%v facts=%v\n", f.Name(), b, st.unrollN, st.Facts)
+					}
+					ip.Diag = append(ip.Diag, fmt.Sprintf("%s: loop %s unrolled beyond its budget", f.Name(), b))
+					sum.Paths++
+					return
+				}
+			}
+		} else if li.headers[b] && from != nil {
 			if li.backEdges[[2]*ssa.BasicBlock{from, b}] {
 				if st.sum[b] != nil {
 					st.sumBackEdge(b, from)
@@ -1738,6 +1804,12 @@ func (st *State) makeOutcome(f *ssa.Function, res []Val) *Outcome {
 			for _, tv := range v.Tup {
 				reach(tv)
 			}
+		case KSlice:
+			if v.S != nil {
+				for _, ev := range v.S.Elems {
+					reach(ev)
+				}
+			}
 		}
 	}
 	for _, r := range res {
@@ -2208,3 +2280,29 @@ func (st *State) Outcome(f *ssa.Function, res []Val) *Outcome { return st.makeOu
 
 // Abort abandons the current path: nothing after the current instruction is interpreted.
 func (st *State) Abort() { st.aborted = true }
+
+type unrollFix struct {
+	h     *ssa.BasicBlock
+	bound ssa.Value
+	n     int64
+}
+
+func (st *State) setExact(h *ssa.BasicBlock, n int) {
+	m := make(map[*ssa.BasicBlock]int, len(st.exact)+1)
+	for k, v := range st.exact {
+		m[k] = v
+	}
+	m[h] = n
+	st.exact = m
+}
+
+// BindParam sets the value of a parameter of f in an entry state (clients of Explore).
+func (st *State) BindParam(f *ssa.Function, name string, v Val) bool {
+	for _, p := range f.Params {
+		if p.Name() == name {
+			st.vals[p] = v
+			return true
+		}
+	}
+	return false
+}
